@@ -151,6 +151,8 @@ class Hist:
                 self.viol(self.mech_detached(o),
                                    f"identity_map[{key[0].__name__}{key[1:]}] is an object that is {'detached' if st.detached else 'not in this session'}",
                                    self.wit({"map_key": repr(key)}))
+        if self.violated:
+            return     # a detached object in the map also displaces fresh loads: one report
         groups = {}
         for o in list(self.held.values()):
             st = self.inspect(o)
